@@ -128,6 +128,34 @@ class Ctx:
         shutil.rmtree(d, ignore_errors=True)
         return out, r.returncode, time.time() - t0
 
+    def apalache(self, spec, init, nxt, invs, expect_error=False, length=0, timeout=900):
+        """Symbolic check with Apalache (bounded length; with length 0 the invariants are checked for every initial state,
+        i.e. for all values of the variables Init ranges over).  Returns True when the outcome is the expected one; any other
+        ending (tool trouble, timeout) is a machinery error.  Like every model-level run this gives no verdict about the code."""
+        d = self._tlc_dir()
+        t0 = time.time()
+        out = ""
+        try:
+            for attempt in range(2):
+                cmd = ["apalache-mc", "check", "--init=" + init, "--next=" + nxt, "--inv=" + ",".join(invs), "--length=%d" % length,
+                       "--out-dir=" + os.path.join(d, "apa%d" % attempt), spec]
+                try:
+                    r = subprocess.run(cmd, cwd=d, capture_output=True, text=True, timeout=timeout)
+                except subprocess.TimeoutExpired:
+                    raise MachineryError("Apalache timeout on %s %s" % (spec, invs))
+                out = r.stdout + r.stderr
+                if "The outcome is: NoError" in out or "The outcome is: Error" in out:
+                    break
+                time.sleep(5)
+        finally:
+            shutil.rmtree(d, ignore_errors=True)
+        ok = ("The outcome is: Error" in out) if expect_error else ("The outcome is: NoError" in out)
+        if not ok:
+            raise MachineryError("Apalache run %s %s did not end as expected (%s):\n%s" % (spec, invs, "counterexample" if expect_error else "no error", out[-2500:]))
+        self.model_runs.append({"spec": spec, "cfg": "apalache " + ",".join(invs) + (" (violated, as required of a witness)" if expect_error else ""),
+                                "distinct_states": 0, "states_generated": 0, "wall_s": round(time.time() - t0, 1)})
+        return True
+
     def tlc_model(self, spec, cfg, workers=None, timeout=3000, extra=(), cfg_text=None, label=None):
         """Exhaustive (or simulation) run of a model configuration; an invariant
         violation of the *model* is a machinery error here: the models describe the
